@@ -465,7 +465,8 @@ func (l *Linter) resolveFileInclusion(
 ) []ast.Statement {
 
 	var statements []ast.Statement
-	module, err := ctx.Restore().Resolver().Resolve(include)
+	// Do not Restore() the context here: an include inside a subroutine body must keep the subroutine's scope, locals and gotos
+	module, err := ctx.Resolver().Resolve(include)
 	if err != nil {
 		e := &LintError{
 			Severity: ERROR,
